@@ -58,7 +58,7 @@ def build_phase(prop, result):
         if not ok:
             b['broken'] += [f'theorem: {n}' for n in core.failing_decls(out)] or ['proof build']
             log(out[-3000:])
-        b['forbidden'] = core.forbidden_hits()
+        b['forbidden'] = core.forbidden_hits(list(prop.props_modules) + [f'CylcModel.Drv.{prop.drv or prop.id}'])
         if b['proofs_ok']:
             ax = core.audit_axioms(prop.id, prop.props_modules, prop.theorems)
             b['axioms'] = ax
@@ -175,8 +175,10 @@ def check(pid, tier, replay_file):
         payload = json.loads(Path(replay_file).read_text())
         inputs = payload.get('inputs') or [payload['input']]
         res = run_cases(prop, inputs) if b['driver_ok'] else []
-        bad = [r for r in res if not r['holds']]
+        bad = [r for r in res if not r['holds'] and prop.finding_key(r['input'], r['why']) not in finding_keys]
         for r in res:
+            if not r['holds'] and prop.finding_key(r['input'], r['why']) in finding_keys:
+                print(f'KNOWN-FINDING: property={rid} {finding_keys[prop.finding_key(r["input"], r["why"])]["what"]}')
             print(json.dumps({'input': r['input'], 'impl': r['obs'], 'model': r['model'],
                               'holds': r['holds'], 'why': r['why']})[:4000])
         if bad:
